@@ -61,12 +61,21 @@ def withPar (r : Location) (par : PKey) : PLoc :=
 
 /-! ### has_overlap -/
 
+/-- `has_overlap` of parent-compatible operands as the code is since F-C02c was repaired (d8ea142):
+    `SingleInterval.has_overlap` answers `False` for an EmptyLocation argument before any strand is looked at
+    (`if other.is_empty: return False`), and every other class reaches that test through its blocks / full span.
+    (`Model.hasOverlap` of Model/Location.lean still mirrors the code before the repair on that corner.) -/
+def hasOverlapN (a b : Location) (ms fs : Bool) : R Bool :=
+  match b with
+  | .empty => pure false
+  | _ => hasOverlap a b ms fs
+
 /-- `has_overlap(other, match_strand, full_span, strict_parent_compare)` of the three classes -/
 def hasOverlapP (a b : PLoc) (ms fs strict : Bool) : R Bool := do
   if strict then requireParentsEq a.2 b.2
   match a.1 with
   | .empty => pure false
-  | _ => if !parentGate a.2 b.2 then pure false else hasOverlap a.1 b.1 ms fs
+  | _ => if !parentGate a.2 b.2 then pure false else hasOverlapN a.1 b.1 ms fs
 
 /-! ### intersection -/
 
@@ -122,13 +131,10 @@ def intersection (a b : Location) (ms fs : Bool) : R Location :=
   | .empty, _ => pure .empty
   | .single x sa, .single y sb => isectSS x sa y sb ms
   | .single x sa, .compound lb => isectSC x sa lb ms fs
-  | .single _ _, .empty => do
-      -- has_overlap is False or raises; `other.intersection(self)` would give Empty whose `.strand` raises
-      if !(← hasOverlap a b ms fs) then pure .empty else throw .EmptyLocation
+  | .single _ _, .empty => pure .empty      -- `has_overlap` is False for an EmptyLocation argument
   | .compound la, .single y sb => isectCS la y sb ms fs
   | .compound la, .compound lb => isectCC la lb ms fs
-  | .compound _, .empty => do
-      if !(← hasOverlap a b ms fs) then pure .empty else throw .UnsupportedOperation
+  | .compound _, .empty => pure .empty
 
 /-- parent of a non-empty intersection: the receiver's, except where the code delegates to
     `other.intersection(self)` (single ∩ compound; compound ∩ compound with `full_span`) -/
@@ -274,7 +280,7 @@ def minusWalk (self : Blk) : List Blk → Nat → Nat → List Blk → Option (L
 
 /-- `SingleInterval.minus(other, match_strand)` (parents gated) -/
 def singleMinus (a : Blk) (sa : Strand) (b : Location) (ms : Bool) : R Location := do
-  if !(← hasOverlap (.single a sa) b ms false) then pure (.single a sa)
+  if !(← hasOverlapN (.single a sa) b ms false) then pure (.single a sa)
   else match minusWalk a (locBlocks b) a.1 a.2 [] with
     | none => pure .empty
     | some bs => do
@@ -283,7 +289,7 @@ def singleMinus (a : Blk) (sa : Strand) (b : Location) (ms : Bool) : R Location 
 
 /-- `CompoundInterval.minus(other, match_strand)` (parents gated) -/
 def compoundMinus (la : Loc) (b : Location) (ms : Bool) : R Location := do
-  if !(← hasOverlap (.compound la) b ms false) then optimizeLoc true la
+  if !(← hasOverlapN (.compound la) b ms false) then optimizeLoc true la
   else do
     let parts ← la.blocks.mapM (fun x => singleMinus x la.strand b ms)
     let rbs := parts.flatMap locBlocks
